@@ -1,12 +1,21 @@
 """Sidecar contracts for /repo/bisturi (never edits the repository)."""
 
-ALL_MODULES = ['c_fragments', 'c_structural']
+ALL_MODULES = ['c_fragments', 'c_structural', 'c_field']
 
 _COMMON_TRUST = [
     'builtin/library contracts of DESIGN.md 2.5-2.6 (assumed; cross-checked against CPython by pyvc/crosscheck.py, bounded)',
 ]
 
+_INT_FUNCS = ['field:Field._compile_impl', 'field:Int._compile', 'field:Int._unpack_fixed_and_primitive_size',
+              'field:Int._unpack_fixed_size', 'field:Int._pack_fixed_and_primitive_size', 'field:Int._pack_fixed_size']
+
 PROPERTIES = {
+    'C05': dict(
+        level='proof',
+        functions=_INT_FUNCS,
+        trusted_base=_COMMON_TRUST,
+        assumptions=['offset >= 0', 'values of unknown user classes are opaque non-integers (duck typing is outside the value model)'],
+    ),
     'C10': dict(
         level='proof',
         functions=['structural_fields:Move.unpack', 'structural_fields:Move.pack'],
@@ -25,6 +34,13 @@ PROPERTIES = {
 }
 
 MANIFEST_TEXT = {
+    'C05': dict(
+        text='Proof for all widths n >= 1, both signedness settings, all endianness spellings and the class default, all byte strings and all '
+             'values: Int._compile selects byte order, struct code and code path as the statement demands; each of the four real pack/unpack '
+             'bodies decodes exactly n bytes to val(bytes, order, sign) and encodes exactly the representable integers to the n bytes that decode '
+             'back, raising (never wrapping/truncating/padding) otherwise.',
+        note='The meaning of int.from_bytes/to_bytes and of single-code struct formats is an assumed builtin contract (cross-checked against CPython, bounded). '
+             'offset >= 0. PacketError wrapping of the raised exception is the C12 contract of the packet drivers. Vectorised struct formats of generated code belong to C03.'),
     'C10': dict(
         text='Proof, for all offsets, targets, alignments, reference points and nesting positions: the real bodies of Move.unpack and Move.pack '
              'satisfy the positioning clauses of the statement (exact target relative to the reference point; least advance < alignment making the '
